@@ -203,12 +203,25 @@ class HidWorld(World):
     def channels(self):
         gw = self.gateway
         out = [("gw:0", lambda: bool(gw.pending) and not self.lost and self.fd in self.loop.readers, self._deliver0)]
+        if getattr(self, "reorder_reports", False) and self.driver_kind == "tridonic":
+            # the DALI-USB may hand over the reports of ONE command in another order (the driver's collecting loop is
+            # written for that): the second pending report overtakes the first when both carry the same sequence number
+            def can_swap():
+                p = gw.pending
+                return (len(p) >= 2 and not self.lost and self.fd in self.loop.readers and p[0][0] == 0x12 and p[1][0] == 0x12
+                        and p[0][8] == p[1][8] and p[0] != p[1])
+            out.append(("gw:0'", can_swap, self._deliver0_second))
         if gw.observe:
             out.append(("gw:1", lambda: bool(gw.observe) and not self.lost and self.fd in self.loop.readers, self._deliver1))
         return out
 
     def _deliver0(self):
         self.rxbuf.append(self.gateway.pending.pop(0))
+        cb, args = self.loop.readers[self.fd]
+        self.loop.inject(cb, *args)
+
+    def _deliver0_second(self):
+        self.rxbuf.append(self.gateway.pending.pop(1))
         cb, args = self.loop.readers[self.fd]
         self.loop.inject(cb, *args)
 
